@@ -325,8 +325,13 @@ class ExceptionTrace(object):
         )
         io.write_line("")
         exception_message = self._exception_message()
-        if self._is_markup(io, exception_message):
+        try:
+            # Evaluated once: tags left open by the message stay on the formatter's style stack
+            # and would make a second evaluation of the same text fail
             exception_message = io.remove_format(exception_message)
+        except ValueError:
+            # Style tags that do not nest: the message is shown as it is
+            pass
 
         self._render_line(io, styled("b", exception_message.replace("\n", "\n  ")))
 
